@@ -126,6 +126,85 @@ def x3(prog, ctx):
     ctx.floor("X3", "functions computing with a polyA/polyT position parameter", n, 4)
 
 
+def x5(prog, ctx):
+    """Where the tail position is put relative to the tail: find_polya_tail reports (coordinate of the first tail base) + dA,
+    find_polyt_head reports (coordinate of the last head base) + dT; the two are mirror images iff dT == -dA, in the branch where the
+    tail lies in the clipped part and in the branch where it lies inside the aligned part.
+
+    Conventions used (pysam): alignment.reference_end = 1-based coordinate L of the last aligned base (0-based exclusive end);
+    alignment.reference_start = F - 1 with F the 1-based coordinate of the first aligned base; read index m_end = first base after the
+    aligned part, m_start = first aligned base; for an ungapped walk move_ref_coord_alogn_alignment(alignment, shift) = |shift|
+    (the walkers themselves are decided by C16/Q1, Q3)."""
+    from ..engine import linform as lf, symexec
+    PFM = "src/polya_finder.py"
+    res = {}
+    for name, ref_attr in (("PolyAFinder.find_polya_tail", "alignment.reference_end"), ("PolyAFinder.find_polyt_head", "alignment.reference_start")):
+        f = prog.func(PFM, name)
+        rets = [r for r in walk_no_nested(f) if isinstance(r, ast.Return) and r.value is not None and not isinstance(r.value, ast.Constant)
+                and not (isinstance(r.value, ast.UnaryOp))]
+        if len(rets) != 1:
+            raise AnalysisError("%s: expected one non-constant return" % name)
+        rv = rets[0].value
+        if isinstance(rv, ast.Call) and (call_name(rv) or "") == "max" and len(rv.args) == 2:      # max(1, position): clamp at the chromosome start
+            rv = next(a for a in rv.args if not isinstance(a, ast.Constant))
+        if not isinstance(rv, ast.Name):
+            raise AnalysisError("%s: returned position is not a local" % name)
+        # the last if-statement both of whose branches assign the returned local
+        cand = [st for st in f.body if isinstance(st, ast.If) and st.orelse
+                and all(any(isinstance(a, ast.Assign) and src(a.targets[0]) == rv.id for a in blk) for blk in (st.body, st.orelse))]
+        if len(cand) != 1 or not (isinstance(cand[0].test, ast.Compare) and len(cand[0].test.ops) == 1):
+            raise AnalysisError("%s: the clipped / aligned case distinction for %s was not found" % (name, rv.id))
+        st = cand[0]
+        l, r = st.test.left, st.test.comparators[0]
+        if not (isinstance(l, ast.Name) and isinstance(r, ast.Name)):
+            raise AnalysisError("%s: case distinction is not <read index> <op> <mapped-region boundary>" % name)
+        pos, bound = l.id, r.id
+        out = {}
+        for label, blk, in_clip in (("tail in the clipped part", st.body, True), ("tail inside the aligned part", st.orelse, False)):
+            env = {}
+            for a in blk:
+                if isinstance(a, ast.Assign) and len(a.targets) == 1 and isinstance(a.targets[0], ast.Name):
+                    v = symexec.subst(a.value, env)
+                    if isinstance(a.value, ast.Call) and (call_name(a.value) or "").endswith("move_ref_coord_alogn_alignment") and len(a.value.args) == 2:
+                        sh = lf.linform(symexec.subst(a.value.args[1], env))
+                        # sign of the shift in this branch: the branch condition says on which side of the boundary the index lies
+                        d = {k: c for k, c in sh.items()}
+                        want_pos = {pos: 1, bound: -1}
+                        if d == want_pos:
+                            positive = isinstance(st.test.ops[0], (ast.LtE, ast.Lt))      # else-branch of pos <= bound: pos > bound
+                        elif d == {k: -c for k, c in want_pos.items()}:
+                            positive = isinstance(st.test.ops[0], (ast.GtE, ast.Gt))
+                        else:
+                            raise AnalysisError("%s: shift handed to the walker is not +-(index - boundary)" % name)
+                        mag = symexec.subst(a.value.args[1], env)
+                        v = mag if positive else ast.UnaryOp(op=ast.USub(), operand=mag)
+                    env[a.targets[0].id] = v
+            if rv.id not in env:
+                raise AnalysisError("%s: %s not assigned in the branch '%s'" % (name, rv.id, label))
+            form = lf.linform(env[rv.id])
+            base = {ref_attr: 1, pos: 1, bound: -1}
+            rest = dict(form)
+            for k, c in base.items():
+                rest[k] = rest.get(k, 0) - c
+            rest = {k: c for k, c in rest.items() if c}
+            if set(rest) - {"1"}:
+                raise AnalysisError("%s (%s): position is not %s + %s - %s + const: %s" % (name, label, ref_attr, pos, bound, lf.fmt(form)))
+            const = rest.get("1", 0)
+            # coordinate of read index `pos`:  polyA: L + 1 + (pos - m_end) ; polyT: F - (m_start - pos) = reference_start + 1 + pos - m_start
+            out[label] = const - 1
+        res[name] = (out, f)
+    (da, fa), (dt, ft) = res["PolyAFinder.find_polya_tail"], res["PolyAFinder.find_polyt_head"]
+    for label in da:
+        if da[label] + dt[label] == 0:
+            ctx.ok("X5", "%s:%d" % (PFM, ft.lineno), "%s: polyA = first tail base %+d, polyT = last head base %+d (mirror images)" % (label, da[label], dt[label]))
+        else:
+            ctx.fail("X5", ft, "PolyAFinder.find_polya_tail / find_polyt_head", label,
+                     "%s: the polyA position is (first tail base) %+d, the polyT position is (last head base) %+d; mirror images would be %+d and %+d. "
+                     "The same molecule read from the other strand gets its tail position %d bp further out, so a polyT-defined transcript "
+                     "start is not the mirror image of the polyA-defined end of the reverse-complemented input"
+                     % (label, da[label], dt[label], da[label], -da[label], abs(da[label] + dt[label])))
+
+
 def run(prog, ctx):
     ctx.rule("X3", "a parameter named *polya_pos / *polyt_pos that is used in arithmetic or an ordering comparison is protected from the "
                    "sentinel -1 by a dominating `== -1` exit / `!= -1` test in the function, or at every call site")
@@ -135,6 +214,10 @@ def run(prog, ctx):
     x2(prog, ctx)
     from . import x1_pairs
     x1_pairs.run(prog, ctx)
+    ctx.rule("X5", "offset of the reported tail position from the tail itself, in linear form, for find_polya_tail and find_polyt_head and both of "
+                   "their branches (tail in the clipped part / inside the aligned part), under pysam's coordinate conventions: the polyT offset "
+                   "must be the negated polyA offset")
+    x5(prog, ctx)
     ctx.rule("X4", "strand decision table (rule N6 of C04): StrandDetector.get_strand / get_clean_strand answer the opposite strand for the "
                    "mirrored case (forward <-> reverse canonical sites, polyA <-> polyT), over all small cases")
     from . import c04 as _c04
